@@ -581,6 +581,70 @@ async def unbounded_cases(chk, rng, count):
     chk.compare("unbounded source: rows pulled at each stop = first model flush points", [d for d, _, _ in descs], want, impl)
 
 
+class MultiApp(RecSession):
+    """answers statement k of a multi-statement command from sources[k]"""
+    sources = None
+    cols = None
+
+    async def query(self, expression, sql, attrs):
+        k = self.n_calls = getattr(self, "n_calls", 0)
+        self.n_calls = k + 1
+        src = self.sources[min(k, len(self.sources) - 1)]
+        return src.iter(), self.cols
+
+
+async def multistatement_cases(chk, rng, count):
+    """`stmt1; stmt2`: only the last statement's result is sent, so nothing is ever handed to the socket for an earlier
+    one; its (possibly unbounded, never suspending) row source may not be pulled beyond the bound, and a PING of another
+    connection sent with the command is answered"""
+    for i in range(count):
+        ncols = rng.choice([1, 2])
+        nst = rng.choice([2, 3])
+        unb = rng.random() < 0.5
+        asyncgen = rng.random() < 0.5
+        early = Source([rng.choice([1, 10, 200])], ncols, unbounded=True, asyncgen=asyncgen) if unb else \
+            Source([rng.choice([1, 10, 200])] * rng.choice([BOUND + 50, 3 * BOUND]), ncols, asyncgen=asyncgen)
+        last = Source([5] * rng.choice([0, 3]), ncols)
+        app = MultiApp()
+        app.sources = [early] * (nst - 1) + [last]
+        app.cols = typed_cols(ncols)
+        srv = mkserver([app, RecSession()])
+        a, b = SPeer(srv), SPeer(srv)
+        caps = int(BASE) | (DEP if rng.random() < 0.5 else 0)
+        await a.login(caps=caps)
+        await b.login()
+        proto = rng.choice(["text", "binary"])
+        sql = b"; ".join(b"select c from t%d" % j for j in range(nst))
+        desc = dict(statements=nst, early_source=("unbounded " if unb else "%d rows " % len(early.widths)) + ("async generator" if asyncgen else "generator"),
+                    proto=proto, seed=chk.seed, case=i)
+        chk.count("multistatement:" + proto)
+        chk.case(("multi", nst, unb, asyncgen, proto))
+        if proto == "binary":
+            out = await a.cmd(b"\x16" + sql)
+            sid = struct.unpack_from("<I", out[0][1], 1)[0]
+            a.t.feed(pkt(0, com_stmt_execute(sid, [], caps=caps)))
+        else:
+            a.t.feed(pkt(0, b"\x03" + sql))
+        b.t.feed(pkt(0, b"\x0e"))
+        for _ in range(60):
+            await settle(20)
+            if early.stop or a.task.done():
+                break
+            if len(a.t.out) > a.pos and last.done:
+                break
+        pong = b.take()
+        if early.pulled > BOUND:
+            chk.fail("rows of a statement whose result is never sent were pulled without bound", desc,
+                     dict(pulled=early.pulled, bound=BOUND, stopped=early.stop))
+        elif not pong:
+            chk.fail("another connection's PING was not answered while a multi-statement command ran", desc, dict(pulled=early.pulled))
+        for x in (a, b):
+            x.task.cancel()
+        await settle(5)
+        await a.finish()
+        await b.finish()
+
+
 async def fairness_cases(chk, rng, count):
     lines, impl, descs = [], [], []
     ks = [0, 1, BATCH - 1, BATCH, BATCH + 1, 2 * BATCH - 1, 2 * BATCH, 2 * BATCH + 1]
@@ -736,6 +800,7 @@ def main():
         await unbounded_cases(chk, rng, 120 if big else 12)
         await fairness_cases(chk, rng, 150 if big else 12)
         await inference_cases(chk, rng, 300 if big else 25)
+        await multistatement_cases(chk, rng, 120 if big else 10)
     asyncio.run(go())
     chk.assumptions = [
         "the transport is asyncio's flow-control contract (pause_writing/resume_writing → StreamWriter.drain); the OS socket buffer below it is not modelled",
